@@ -19,6 +19,17 @@ def impedance(impedance: ccp.Component, *_) -> ntw.Branch:
     )
     return ntw.Branch(impedance.nodes[0], impedance.nodes[1], elm.impedance(impedance.id, Z))
 
+def conductance(conductance: ccp.Component, *_) -> ntw.Branch:
+    G = float(conductance.value['G'])
+    return ntw.Branch(conductance.nodes[0], conductance.nodes[1], elm.conductor(conductance.id, G))
+
+def admittance(admittance: ccp.Component, *_) -> ntw.Branch:
+    Y = complex(
+        float(admittance.value['G']),
+        float(admittance.value['B'])
+    )
+    return ntw.Branch(admittance.nodes[0], admittance.nodes[1], elm.admittance(admittance.id, Y))
+
 def capacitor(capacitor: ccp.Component, w: float = 0, *_) -> ntw.Branch:
     C = float(capacitor.value['C'])
     return ntw.Branch(
@@ -178,6 +189,8 @@ def resistive_load(load: ccp.Component, *_) -> ntw.Branch:
 transformers : dict[str, CircuitComponentTranslator] = {
     'resistor' : resistor,
     'impedance' : impedance,
+    'conductance' : conductance,
+    'admittance' : admittance,
     'capacitor' : capacitor,
     'inductance' : inductance,
     'dc_voltage_source' : dc_voltage_source,
